@@ -714,16 +714,6 @@ func corpusC12() []FileDef {
 			Const{Name: "Red", Val: "0", Cells: []Cell{cellOf(ks, "_Label", "Red", 0, false)}},
 			Const{Name: "Blue", Val: "1", Cells: []Cell{cellOf(ks, "_", "blu", 0, false)}}),
 	}})
-	// 9b. the same with a NAMED string type: `Label("Red")` next to Red is not the plain string the
-	//     Parse switch lists for the name, so it needs its own case entry (round 5, C12-51)
-	o9b := defaultOpts()
-	o9b.Parsable = []string{"Label", "Code"}
-	out = append(out, FileDef{Kind: "corpus", Opts: o9b, Traits: true, Enums: []EnumDef{
-		traitEnum("E0", uByName("int"), 0, []TypeInfo{typeInfoOf(kS), typeInfoOf(ki)},
-			Const{Name: "Apple", Val: "0", Cells: []Cell{cellOf(kS, "_Label", "apple", 0, false), cellOf(ki, "_Code", "", 10, false)}},
-			Const{Name: "Pear", Val: "1", Cells: []Cell{cellOf(kS, "_", "Pear", 0, false), cellOf(ki, "_", "", 20, false)}},
-			Const{Name: "Plum", Val: "2", Cells: []Cell{cellOf(kS, "_", "plum", 0, false), cellOf(ki, "_", "", 30, false)}}),
-	}})
 	out = append(out, FileDef{Kind: "corpus", Opts: o9, Traits: true, Enums: []EnumDef{
 		traitEnum("E0", uByName("int"), 0, []TypeInfo{typeInfoOf(ks)},
 			Const{Name: "Red", Val: "0", Cells: []Cell{cellOf(ks, "_Label", "Blue", 0, false)}},
@@ -768,6 +758,24 @@ func corpusClasses() []FileDef {
 	str := func(k colKind, v, s string) Cell { return cellOf(k, v, s, 0, false) }
 	num := func(k colKind, v, dec string) Cell { return cellInt(k, v, bigStr(dec)) }
 	var out []FileDef
+	// 9b. the same with a NAMED string type: `Label("Red")` next to Red is not the plain string the
+	//     Parse switch lists for the name, so it needs its own case entry (round 5, C12-51)
+	o9b := defaultOpts()
+	o9b.Parsable = []string{"Label", "Code"}
+	out = append(out, FileDef{Kind: "corpus", Opts: o9b, Traits: true, Enums: []EnumDef{
+		traitEnum("E0", uByName("int"), 0, []TypeInfo{typeInfoOf(kS), typeInfoOf(kun)},
+			Const{Name: "Apple", Val: "0", Cells: []Cell{cellOf(kS, "_Label", "apple", 0, false), cellOf(kun, "_Code", "", 10, false)}},
+			Const{Name: "Pear", Val: "1", Cells: []Cell{cellOf(kS, "_", "Pear", 0, false), cellOf(kun, "_", "", 20, false)}},
+			Const{Name: "Plum", Val: "2", Cells: []Cell{cellOf(kS, "_", "plum", 0, false), cellOf(kun, "_", "", 30, false)}}),
+	}})
+	// 9c. a NAMED string cell that spells the name of ANOTHER value: the decoders hand the scalar to
+	//     Parse as a plain string first, so the name wins and the owner is unreachable (round 6, C05-61)
+	out = append(out, FileDef{Kind: "corpus", Opts: o9b, Traits: true, Enums: []EnumDef{
+		traitEnum("E0", uByName("int"), 0, []TypeInfo{typeInfoOf(kS), typeInfoOf(kun)},
+			Const{Name: "Up", Val: "0", Cells: []Cell{cellOf(kS, "_Label", "Down", 0, false), cellOf(kun, "_Code", "", 10, false)}},
+			Const{Name: "Down", Val: "1", Cells: []Cell{cellOf(kS, "_", "Up", 0, false), cellOf(kun, "_", "", 20, false)}},
+			Const{Name: "Left", Val: "2", Cells: []Cell{cellOf(kS, "_", "left", 0, false), cellOf(kun, "_", "", 30, false)}}),
+	}})
 	// A. -caseInsensitive together with parsable string traits (untyped and named type) whose values
 	//    contain upper-case letters: Parse must match trait constants exactly, names in any case
 	oa := defaultOpts()
